@@ -72,12 +72,14 @@ def eval_on_lasso(f, pre, cyc, labels):
     return ev(f)[0]
 
 
-def find_lasso(kd, s, g, maxlen):
-    """a lasso from s violating g (i.e. satisfying not g), searched by DFS over simple-ish walks"""
+def find_lasso(kd, s, g, maxlen, budget=4000):
+    """a lasso from s violating g (i.e. satisfying not g), searched by DFS over simple-ish walks (at most `budget` walks:
+    the search is a certificate generator, giving up only means 'no certificate')"""
     succ = succ_of(kd)
     labels = {v: set(kd['L'].get(v, [])) for v in succ}
     stack = [[s]]
-    while stack:
+    while stack and budget > 0:
+        budget -= 1
         w = stack.pop()
         for d in succ[w[-1]]:
             if d in w:
@@ -147,6 +149,8 @@ def run(R):
     run_print_stream(R, 'C02', 'LTL', 800 if R.thorough else 100)
     cs = cases(R)
     run_mc(R, 'LTL', cs)
+    # or/and nodes with 3-5 (or 1) operands, each a distinct temporal formula: an operand in position >= 3 must count
+    run_mc(R, 'LTL', wide_cases(R.rng, 2500 if R.thorough else 250, 'LTL'), label='_wide_connectives')
     rng = R.rng
     internal_agreement(R, rng.sample(cs, 150 if not R.thorough else 1500))
     # lasso certificates for exclusions
